@@ -65,6 +65,30 @@ Definition obs_matches (check_len : bool) (universe : list bs) (o : obs) (st : c
              optb_eqb (fst a) (get_by_name st (unbs n)) && Z.eqb (snd a) (id_by_name st (unbs n)))
           (combine (o_look o) universe).
 
+(* SPEC variant: by-name access must return a row that carries the name - the first one when the names
+   are pairwise distinct; when the caller made two rows share a name, any of them (GetSequence goes
+   through the name index, GetSequenceIdByName scans the rows: which carrier each designates is not specified) - and nothing when no row carries it *)
+Definition obs_matches_spec (check_len : bool) (universe : list bs) (o : obs) (st : cstate) (ok : bool) : bool :=
+  let rows := abs st in
+  Bool.eqb (o_err o) (negb ok) &&
+  Z.eqb (o_nb o) (Z.of_nat (length (c_objs st))) &&
+  (negb check_len || negb (c_kind st) || Z.eqb (o_len o) (c_len st)) &&
+  rows_eqb (unrows (o_rows o)) rows &&
+  Nat.eqb (length (o_look o)) (length universe) &&
+  forallb (fun an : (option bs * Z) * bs =>
+             let '(a, n) := an in
+             let carriers := filter (fun ir => bytes_eqb (fst (snd ir)) (unbs n)) (combine (seq 0 (length rows)) rows) in
+             match carriers, fst a with
+             | [], None => Z.eqb (snd a) (-1)
+             | [], Some _ => false
+             | _ :: _, None => false
+             | _ :: _, Some s =>
+                 (* each accessor designates a carrier (the same one when there is only one) *)
+                 existsb (fun ir => Z.eqb (snd a) (Z.of_nat (fst ir))) carriers &&
+                 existsb (fun ir => bytes_eqb (snd (snd ir)) (unbs s)) carriers
+             end)
+          (combine (o_look o) universe).
+
 Definition init_state (c : case) : cstate :=
   fst (add_all (c_kindb c) (empty_state (c_kindb c) (c_alphaz c)) (unrows (c_init c))).
 
@@ -96,7 +120,7 @@ Fixpoint run_spec (universe : list bs) (st : cstate) (renamed : bool) (steps : l
       let rows' := abs st' in
       let renamed' := renamed || is_rename b in
       (* the observed content is the reference's (length is judged when there is a row) *)
-      obs_matches (match rows' with [] => false | _ => true end) universe o st' ok &&
+      obs_matches_spec (match rows' with [] => false | _ => true end) universe o st' ok &&
       (* every row of an alignment has the reported length *)
       (negb (c_kind st') || forallb (fun r => Z.eqb (Z.of_nat (length (snd r))) (o_len o)) (unrows (o_rows o))) &&
       (* names pairwise distinct unless the caller renamed rows *)
